@@ -139,6 +139,19 @@ func init() {
 			"cell widths are non-negative (CellBuffer invariant; precondition)"},
 	})
 	reg(&PropDef{
+		ID:     "C04",
+		Level:  "proof",
+		Funcs: []string{"tcell.(*tScreen).EnablePaste", "tcell.(*tScreen).DisablePaste", "tcell.(*tScreen).EnableFocus", "tcell.(*tScreen).DisableFocus", "tcell.(*tScreen).DisableMouse",
+			"tcell.(*tScreen).enableMouse", "tcell.(*tScreen).enablePasting", "tcell.(*tScreen).enableFocusReporting", "tcell.(*tScreen).engage"},
+		Custom: []func(*PropRun){c04Disengage},
+		Trusted: []string{"terminfo pairing of on/off capabilities (smcup/rmcup, smkx/rmkx, civis/cnorm, sgr0, op, smam/rmam) and the xterm private modes tcell hard-codes (1000/1002/1003/1006, 2004, 1004, title stack 22/23;2t, DECSCUSR, OSC 12/112) as the oracle of what 'off' means",
+			"Tty methods: assumed interface contracts (they return; Stop/Drain/NotifyResize touch no screen state)"},
+		Assume: []string{"disengage is evaluated with t.buffering = true so that its output is collected in t.buf (TPuts/writeString differ only in the destination they pass on)",
+			"quick tier: a fixed third of the registered descriptions plus xterm*, linux, vt100, screen, tmux; thorough: all",
+			"engage (Init/Resume) is proved to call enableMouse with the recorded flags, enablePasting with the recorded flag and enableFocusReporting iff focus was enabled, exactly once each when it succeeds; the setters are proved to record the request; WHICH bytes these helpers emit for the flags is read off their (short) code, not stated as a contract; EnableMouse's variadic flag folding is not under contract",
+			"package error variables (ErrNoScreen) are non-nil"},
+	})
+	reg(&PropDef{
 		ID:    "C11",
 		Level: "proof",
 		Funcs: []string{"tcell.(*tScreen).parseRune", "tcell.(*tScreen).parseFocus", "tcell.(*tScreen).parseFunctionKey", "tcell.(*tScreen).inputLoop", "tcell.(*tScreen).collectEventsFromInput"},
@@ -583,6 +596,10 @@ func c11Paste(run *PropRun) {
 
 func constantInt(o *types.Const) (int64, bool) {
 	return constant.Int64Val(o.Val())
+}
+
+func constantUint(o *types.Const) (uint64, bool) {
+	return constant.Uint64Val(o.Val())
 }
 
 // c02Replays: demonstrations on the real driver for the parseClipboard obligations.
